@@ -55,9 +55,10 @@ The bound `disagree` survives the generalisation although a fetched key no longe
 fetch (the receiver moves to `x ⊔ y`, which may differ from both `x` and `y`, and one diff is complete
 only under the span condition of C07): a case analysis on the two key spans (`round_agree`,
 `Proofs/SyncJoin.lean`) shows that the reverse pull of the same round covers such a key, or that
-another disagreeing key is settled. Exhaustive runs of the model over all pairs of stores with ≤ 4
-keys × values {absent, 1, 2, 3} (bit masks) × all assignments of 3 levels found no pair needing more
-than `disagree` rounds before the proof was attempted. -/
+another disagreeing key is settled. Exhaustive runs of the model (`tools/join_rounds_scan.lean`) over
+all pairs of stores with ≤ 4 keys × values {absent, 1, 2, 3} (bit masks) × all assignments of 3
+levels (5.3 M pairs), and ≤ 5 keys × 2 levels (33.5 M pairs), found no pair needing more than
+`disagree` rounds before the proof was attempted. -/
 theorem C05_rounds_join (lvl : K → Nat) (hlvl : ∀ k, lvl k < 255) (hc : HashCfg K V D)
     (hnc : NoCollisions hc) (m : Merge)
     (a b : Replica K V D) (ha : RInv lvl hc a) (hb : RInv lvl hc b)
